@@ -10,6 +10,7 @@ def plans(tier):
             ("mark", pc.consts(S, win=1, passive=False, mark=True, outcomes=("ok",))),
             ("hold-lc", pc.consts(["least_connections", "ip_hash"], win=1, passive=False, mark=True, maxhold=1, outcomes=("ok", "hold"))),
             ("active", pc.consts(S, win=1, passive=False, active=True, outcomes=("ok",))),
+            ("admin3", pc.consts(["round_robin"], N=3, N0=3, weight="W111", win=1, passive=False, mark=True, admin=True, clients=(1,), outcomes=("ok",))),
         ]
     return [
         ("passive4", pc.consts(S, N=4, N0=4, weight="W2101", win=1, thr=2, outcomes=("ok", "fail"))),
@@ -17,6 +18,7 @@ def plans(tier):
         ("mark4", pc.consts(S, N=4, N0=4, weight="W2101", win=1, passive=False, mark=True, outcomes=("ok",))),
         ("hold", pc.consts(S, win=1, passive=False, mark=True, maxhold=1, outcomes=("ok", "hold"))),
         ("active", pc.consts(S, win=1, passive=True, thr=2, active=True, outcomes=("ok", "fail"))),
+        ("admin3", pc.consts(["round_robin", "ip_hash", "weighted_round_robin"], N=3, N0=3, weight="W111", win=1, passive=False, mark=True, admin=True, clients=(1,), outcomes=("ok",))),
         ("admin", pc.consts(["round_robin", "least_connections", "ip_hash"], N=3, N0=2, weight="W321", win=1, passive=False, mark=True, admin=True, clients=(1,), outcomes=("ok",))),
     ]
 
